@@ -72,11 +72,23 @@ def apply_and_check(report, src, name, checks, flags):
     confirmed = report.get("confirmed")
     if not confirmed:
         print("NOT CONFIRMED", json.dumps(report, indent=1)); return report
-    # run the checks against /repo with the change applied
-    rc, out = sh(["git", "-C", "/repo", "status", "--porcelain"])
-    if out.strip():
-        print("/repo not clean:", out); return report
-    sh(["git", "-C", "/repo", "apply", os.path.join(src, "patch.diff")])
+    # run the checks against the source tree with the change applied: /repo itself, or (--alt) a
+    # scratch worktree that the checks are pointed at through VERIF_REPO (leaves /repo alone, so a
+    # background sweep over /repo is not disturbed)
+    alt = None
+    if "--alt" in flags:
+        alt = "/tmp/wt/alt_" + name
+        sh(["git", "-C", "/repo", "worktree", "remove", "--force", alt])
+        sh(["git", "-C", "/repo", "worktree", "add", "-q", "--detach", alt, "HEAD"])
+        rc, out = sh(["git", "apply", os.path.join(src, "patch.diff")], cwd=alt)
+        if rc != 0:
+            print("patch does not apply in", alt, out); return report
+        ENV["VERIF_REPO"] = alt
+    else:
+        rc, out = sh(["git", "-C", "/repo", "status", "--porcelain"])
+        if out.strip():
+            print("/repo not clean:", out); return report
+        sh(["git", "-C", "/repo", "apply", os.path.join(src, "patch.diff")])
     results = {}
     try:
         for c in checks:
@@ -89,14 +101,18 @@ def apply_and_check(report, src, name, checks, flags):
                 os.makedirs("/verif/seeded/%s" % name, exist_ok=True)
                 shutil.copy(rp, "/verif/seeded/%s/replay_%s.json" % (name, c))
     finally:
-        sh(["git", "-C", "/repo", "checkout", "--", "."])
+        if alt:
+            ENV.pop("VERIF_REPO", None)
+            sh(["git", "-C", "/repo", "worktree", "remove", "--force", alt])
+        else:
+            sh(["git", "-C", "/repo", "checkout", "--", "."])
     # restore evidence / replays for the unchanged tree
     if "--no-restore" not in flags:
         for c in checks:
             sh(["/verif/check", c, "--tier", "quick"], cwd="/verif")
     report["checks"] = results
     report["caught_by"] = sorted(c for c, r in results.items() if r["exit"] != 0)
-    report["ran"].append("git -C /repo apply patch.diff; ./check <id> --tier quick for %s; git -C /repo checkout -- ." % ", ".join(checks))
+    report["ran"].append(("scratch worktree with the patch, VERIF_REPO=<worktree> ./check <id> --tier quick for %s" if alt else "git -C /repo apply patch.diff; ./check <id> --tier quick for %s; git -C /repo checkout -- .") % ", ".join(checks))
     d = "/verif/seeded/%s" % name
     os.makedirs(d, exist_ok=True)
     shutil.copy(os.path.join(src, "patch.diff"), d)
